@@ -9,6 +9,7 @@ C09 driver (Float).  Floats cross the pipe as 16-hex-digit bit patterns.
   pab <m> lam×m mu×m psi×m rho×m times×(m+1)   -> `p h,…(m+1) A h,…(m) B h,…(m)`
   epi <R> <delta> <s> [<r>]                     -> `lam mu psi`
   opts                                          -> per class `name:ok` and translatorOk
+  constlogprob <survival> lam mu psi rho T <ntips> tips… <nints> ints… -> value of the constant-rate model (BirthDeath.log_prob)
   refine <m> <i> <s> lam×m mu×m psi×m rho×m times×(m+1) -> `lam … mu … psi … rho … times …` of the grid with epoch i cut at s
 -/
 open TT.C09 TT.Proto
@@ -111,6 +112,24 @@ def handle (line : String) : String :=
         let ks := List.range (m + 1)
         s!"lam {commaF (ks.map r'.lam)} mu {commaF (ks.map r'.mu)} psi {commaF (ks.map r'.psi)} rho {commaF (ks.map r'.rho)} times {commaF ((List.range (m + 2)).map t')}"
     | _, _, _ => "bad-op"
+  | "constlogprob" :: sv :: rest =>
+    if ¬ (sv = "0" ∨ sv = "1") then "bad-op" else
+    let r? := do
+      let (ps, ws) ← takeFloats 5 rest
+      match ws with
+      | nt :: ws =>
+        let nt ← nt.toNat?
+        let (tips, ws) ← takeFloats nt ws
+        match ws with
+        | ni :: ws =>
+          let ni ← ni.toNat?
+          let (ints, ws) ← takeFloats ni ws
+          if ws.isEmpty then some (ps, tips, ints) else none
+        | [] => none
+      | [] => none
+    match r? with
+    | some ([lam, mu, psi, rho, T], tips, ints) => floatBits (logProbConst lam mu psi rho T (sv = "1") tips ints)
+    | _ => "bad-op"
   | ["opts"] =>
     let cs := TTGen.C09_Options.classes.map fun c => s!"{c.name}:{c.ok}"
     s!"{" ".intercalate cs} translatorOk:{TTGen.C09_Options.translatorOk}"
